@@ -276,3 +276,22 @@ def verify_async_init_addon(run):
     run.verify('AddonAsyncInit.init_async', cls='AddonAsyncInit', hooks={'opaque_fstrings': True, 'await': awaits({'self._init_event.wait()': await_init_event})})
     w = scan.attr_writers('_init_event')
     run.scan('writers_of__init_event', w == ['edzed/addons.py:AddonAsyncInit.__init__', 'edzed/addons.py:AddonAsyncInit.start'], f'{w}')
+
+
+# ---- InitAsync.init_regular: the fallback that prevents a start-up failure ----------------------------------------------------------------------------
+@contract('InitAsync.init_regular', qual='edzed.blocklib.sblocks2:InitAsync.init_regular', modifies=DELIVERY + ('_output_events',), self_cls='InitAsync')
+def _ia_init_regular(c):
+    me = c.z('self')
+    out0 = c.pre('_output', me); initdef = c.pre('initdef', me)
+    needed = And(out0 == Val.Undef, initdef == Val.Undef)
+    c.raises('DeliveryError', when=needed, unchanged=False)
+    c.ensures('nothing_to_do_when_initialised_or_an_initdef_will_follow', Implies(Not(needed), And(c.post('_output', me) == out0,
+              c.post('_output_events', me)[1] == c.pre('_output_events', me)[1])))
+    c.ensures('otherwise_the_output_becomes_none', Implies(needed, c.post('_output', me) == Val.VNone))
+    if c.verifying:
+        # documented: this fallback does not announce itself with output events (known finding F-C02: they are removed for good)
+        c.expect_trace(lambda k: rec('set_output', Val.Obj(me), Val.VNone), If(needed, 1, 0))
+
+
+def verify_initasync(run):
+    run.verify('InitAsync.init_regular', cls='InitAsync')
